@@ -22,14 +22,14 @@ Ltac split_args args :=
   destruct args as [|?a [|?a [|?a [|?a [|?a [|?a [|?a [|?a args]]]]]]]].
 
 Ltac arith_close :=
-  bool_hyps; prim_facts; autorewrite with lenN in *;
+  cbn [negb andb orb] in *; bool_hyps; prim_facts; autorewrite with lenN in *;
   cbv [MAX_CONTRACT_STATE W32 W64 MAX_LOG_SIZE MAX_NUM_LOGS MAX_ENTRY_SIZE MAX_KEY_SIZE N.shiftl Pos.shiftl Pos.iter] in *;
   u32_facts; cbv [W32] in *; lia.
 
 Ltac proj_red :=
   cbv beta iota zeta delta [fst snd hs HostV0.h_state HostV0.h_logs HostV0.h_limit HostV0.h_ext HostV0.h_frames
                             with_state with_logs with_actions with_frames with_balance with_ext
-                            HostV1.x_rv HostV1.x_is HostV1.is_entries HostV1.x_entrypoint].
+                            HostV1.x_rv HostV1.x_is HostV1.is_entries HostV1.x_entrypoint] in *.
 
 (** ** Legacy state never exceeds 16 KiB *)
 Section V0.
